@@ -157,6 +157,10 @@ package immutable
 // C01: the reported violations are exactly those the property demands, in every declaration of every analysed file.
 //@ func CheckImmutable
 //@   props C01 C12 C14 C10
+//@   assigns nothing
+//@   loop 1 frame
+//@   loop 2 frame
+//@   at call ast.Inspect#1 frame
 //@   requires cfg != nil && pass.Pkg != nil && packageAnnotations != nil
 //@   ensures forall j int :: 0 <= j && j < len(result) ==> justified(cfg, pass, packageAnnotations, result[j].Node, result[j].Code, result[j].Pos)
 //@   ensures forall f *ast.File, di int :: contains(pass.Files, f) && !skipFile(cfg, pass, f) && 0 <= di && di < len(f.Decls) ==> declDone(pass, packageAnnotations, result, f, di)
@@ -169,3 +173,26 @@ package immutable
 //@   at call ast.Inspect#1 invariant forall k int, di int :: 0 <= k && k < $i1 && 0 <= di && di < len($seq1[k].Decls) ==> declDone(pass, packageAnnotations, violations, $seq1[k], di)
 //@   at call ast.Inspect#1 invariant forall di int :: 0 <= di && di < $i2 ==> declDone(pass, packageAnnotations, violations, file, di)
 //@   at call ast.Inspect#1 invariant forall k int, code string, pos token.Pos :: 0 <= k && k < $i && nodeViol(pass, packageAnnotations, decl, $seq[k], code, pos) ==> (exists j int :: 0 <= j && j < len(violations) && violations[j].Node == $seq[k] && violations[j].Code == code && violations[j].Pos == pos)
+
+//@ func ImmutableViolation.GetCode
+//@   props C17 C10
+//@   ensures result == v.Code
+//@   assigns nothing
+//@ func ImmutableViolation.GetPos
+//@   props C17 C10
+//@   ensures result == v.Pos
+//@   assigns nothing
+
+// ---- C17 / C08: every violation that the suppression set does not cover is emitted, at its position ----------------
+//@ pure func shown_immutable(ign *util.IgnoreSet, vs []ImmutableViolation, m int) rec int = m <= 0 ? 0 : (shown_immutable(ign, vs, m-1) + (supp(ign, vs[m-1].Code, vs[m-1].Pos) ? 0 : 1))
+//@ func ReportViolations
+//@   props C17 C08 C07 C10
+//@   requires true && (ignoreSet != nil ==> isetInv(ignoreSet))
+//@   assigns pass.$reports
+//@   ensures len(pass.$reports) == old(len(pass.$reports)) + shown_immutable(ignoreSet, violations, len(violations))
+//@   ensures forall k int :: 0 <= k && k < old(len(pass.$reports)) ==> pass.$reports[k] == old(pass.$reports)[k]
+//@   ensures forall j int :: 0 <= j && j < len(violations) && !supp(ignoreSet, violations[j].Code, violations[j].Pos) ==> (exists k int :: old(len(pass.$reports)) <= k && k < len(pass.$reports) && pass.$reports[k].Pos == violations[j].Pos)
+//@   loop 1 invariant reporterOK(reporter) && reporter.pass == pass && reporter.ignoreSet == ignoreSet && 0 <= shown_immutable(ignoreSet, violations, $i)
+//@   loop 1 invariant len(pass.$reports) == old(len(pass.$reports)) + shown_immutable(ignoreSet, violations, $i)
+//@   loop 1 invariant forall k int :: 0 <= k && k < old(len(pass.$reports)) ==> pass.$reports[k] == old(pass.$reports)[k]
+//@   loop 1 invariant forall j int :: 0 <= j && j < $i && !supp(ignoreSet, violations[j].Code, violations[j].Pos) ==> (exists k int :: old(len(pass.$reports)) <= k && k < len(pass.$reports) && pass.$reports[k].Pos == violations[j].Pos)
